@@ -25,9 +25,15 @@ GATED = ["Cat.add.locked", "Cat.add.created", "Cat.add.scanned", "Cat.rm.found",
          "Cat.addfile.locked", "WriteCSM.lookedUp"]
 
 
+# concrete names: symbol B's name extends symbol A's, attribute group Y's extends X's (directory paths in a string-prefix
+# relation: anything that matches catalog paths by prefix instead of by component shows up)
+SYMNAME = {"A": "SY", "B": "SYB", "C": "Q"}
+AGNAME = {"X": "OHLC", "Y": "OHLCV", "Z": "T"}
+
+
 def key(b):
     s, g = b.split("/")
-    return "%s/%s/%s" % (s, TF, g)
+    return "%s/%s/%s" % (SYMNAME.get(s, s), TF, AGNAME.get(g, g))
 
 
 def epoch(y, k):
